@@ -5,8 +5,9 @@
 # Output: /verif/seeded/.runs/<name>/<Cxx>.{log,json,replay}; the scratch copies are removed afterwards.
 set -u
 name="$1"; mut="$2"; shift 2
+SRC="${VERIF_SRC:-/verif}"   # framework copy to run (a builder worktree may set VERIF_SRC=/work/Cxx)
 SBX=/tmp/sbx-$name-$$
-out=/verif/seeded/.runs/$name
+out=$SRC/seeded/.runs/$name
 mkdir -p "$SBX/repo" "$SBX/verif" "$out"
 rsync -a --exclude target /repo/ "$SBX/repo/"
 git -C "$SBX/repo" checkout -q HEAD -- . 2>/dev/null
@@ -15,7 +16,7 @@ case "$mut" in
   none) ;;
   *) git -C "$SBX/repo" apply "$mut" || { echo "patch does not apply"; rm -rf "$SBX"; exit 2; } ;;
 esac
-rsync -a --exclude .work --exclude replays --exclude 'seeded/.runs' /verif/ "$SBX/verif/"
+rsync -a -q --exclude .work --exclude replays --exclude 'seeded/.runs' "$SRC"/ "$SBX/verif/" 2>/dev/null
 rc_all=0
 for id in "$@"; do
   unshare -m sh -c "mount --bind $SBX/repo /repo && mount --bind $SBX/verif /verif && cd /verif && ./check $id ${VERIF_TIER:+--tier $VERIF_TIER}" > "$out/$id.log" 2>&1
